@@ -78,6 +78,7 @@ let matches (e : expect) (r : string) : bool =
   | ExactOk (m, p), ["ok"; m'; p'; "1"] -> int_of_string m' = m && int_of_string p' = p
   | AnyErr, "err" :: _ -> true
   | Unsure, ("err" :: _ | "ok" :: _) -> true
+  | _, ["cancelled"] -> true        (* the caller dropped its future: nothing to compare *)
   | _ -> false
 
 let show = function ExactOk (m, p) -> Printf.sprintf "ok:%d:%d" m p | AnyErr -> "err" | Unsure -> "?"
